@@ -133,7 +133,8 @@ func (f *fetcher) handleUpstreamResponse(req *http.Request, resp *http.Response,
 	case http.StatusNotModified:
 		return f.handleUpstream304(req, key)
 	case http.StatusRequestedRangeNotSatisfiable:
-		return f.handleUpstream416(req, resp, key, clientHd, noRetry)
+		// Only retry without the Range header if the operator enabled it
+		return f.handleUpstream416(req, resp, key, clientHd, noRetry || !f.cfg.Proxy.RetryOnRange416.Read())
 	default:
 		slog.Debug("Upstream returned non-cachable response", "url", req.URL, "status", resp.StatusCode)
 		return nil, nil
